@@ -46,7 +46,7 @@ TEXT = {
             'Requests go through the real transmit chain (fragments leave by idle callbacks the scheduler interleaves); a twin node without MTU gives the unfragmented encoding; '
             'every output is decoded independently and checked for size, tiling, identity fields, extension-block placement and CRCs.', '5/C05'),
     'C06': ('exploration', 'E5 bp_net (destination role)', 'seeded search over fragmentations x arrival permutations, duplication and loss; interval-set model',
-            'Fragments produced by the reference fragmenter (uniform, uneven, overlapping) arrive permuted, duplicated and interleaved across 1-3 originals; after each arrival an '
+            'Fragments produced by the reference fragmenter (uniform, uneven, overlapping) arrive permuted, duplicated and interleaved across 1-3 originals (a quarter of which carry an integrity block over the payload that is bound to the primary block and has to verify on the reassembled bundle); after each arrival an '
             'interval model says which originals are complete and the probe application must have seen exactly those, once, with the right payload and first-fragment blocks.', '5/C06'),
     'C08': ('fault_enumeration', 'E5 bp_net', 'enumeration of single-bit flips, short bursts and single-octet CBOR-head substitutions inside CRC-protected blocks; independent bitwise CRC',
             'For each generated bundle every bit of a window (whole bundle when small) is flipped and the sequence corrupt copy / clean copy / duplicate is received by one agent; '
